@@ -42,7 +42,7 @@ class DecoratorsWrapper(Wrapper):
             raise ValueError("ttl can't be None with lock")
 
         if upper:
-            return self._wrap_with_condition(decorator_fabric, **decor_kwargs)
+            return self._wrap_with_condition(decorator_fabric, protected=protected, **decor_kwargs)
         return self._wrap(decorator_fabric, protected=protected, **decor_kwargs)
 
     def _wrap(
@@ -92,6 +92,7 @@ class DecoratorsWrapper(Wrapper):
         condition,
         lock=False,
         time_condition=None,
+        protected=False,
         **decor_kwargs,
     ):
         def _decorator(func: AsyncCallable_T) -> AsyncCallable_T:
@@ -101,12 +102,19 @@ class DecoratorsWrapper(Wrapper):
                 _condition = _all_of(_time_condition, condition)
                 func = _decor(func)
             decorator_fabric(self, **decor_kwargs)(func)  # to register cache templates
+            thunder_protection: Callable[[DecoratedFunc], DecoratedFunc] = _skip_thunder_protection
+            if protected:
+                thunder_protection = decorators.thunder_protection(key=decor_kwargs.get("key"))
 
             @wraps(func)
             async def _call(*args, **kwargs):
                 self._check_setup()
                 if self.is_full_disable:
                     return await func(*args, **kwargs)
+                return await thunder_protection(_cached_call)(*args, **kwargs)
+
+            @wraps(func)
+            async def _cached_call(*args, **kwargs):
                 with decorators.context_cache_detect as detect:
 
                     def new_condition(result, _args, _kwargs, key):
